@@ -294,6 +294,24 @@ k("K126", "C13", "datacodec/timestamp.go", "\t\tif millis, overflow = multiplyEx
   "flag-examined:datacodec.ConvertTimeToEpochMillis -> multiplyExact#2", "overflow flag overwritten before it is tested")
 k("K127", "C13", "datacodec/int.go", "\tcase int64:\n\t\tval, err = int64ToInt32(s)\n", "\tcase int64:\n\t\tval, _ = int64ToInt32(s)\n",
   "flag-examined:datacodec.convertToInt32 -> int64ToInt32#1", "range error discarded")
+# ---- C11
+k("K44", "C11", "datacodec/bigint.go", "\tcase *uint16:\n\t\tif d == nil {\n\t\t\terr = ErrNilDestination\n\t\t} else if wasNull {\n\t\t\t*d = 0\n\t\t} else {\n\t\t\t*d, err = int64ToUint16(val)\n\t\t}\n", "",
+  "type-symmetry:bigintCodec source *uint16", "source type accepted, destination type not")
+k("K137", "C11", "datacodec/int.go", "\t\t} else if wasNull {\n\t\t\t*d = nil\n\t\t} else {\n\t\t\t*d = val\n\t\t}\n\tcase *int:", "\t\t} else if wasNull {\n\t\t\t*d = nil\n\t\t} else {\n\t\t\t*d = int64(val)\n\t\t}\n\tcase *int:",
+  "preferred-type:int", "untyped destination receives int64 instead of the documented int32")
+k("K138", "C11", "datacodec/int.go", "\t\t\t*d = strconv.FormatInt(int64(val), 10)", "\t\t\t*d = strconv.FormatInt(int64(val), 16)",
+  "text-base:convertFromInt32 -> FormatInt#1", "hexadecimal text on the decoding side only")
+k("K139", "C11", "datacodec/int.go", "\t\t} else {\n\t\t\t*d = int64(val)\n\t\t}", "\t\t} else {\n\t\t\t*d = int64(val) + 1\n\t\t}",
+  "conversion-purity:convertFromInt32 case *int64", "arithmetic on the decoded value")
+k("K140", "C11", "datacodec/map.go", "\t\t\t} else if valueWasNull, err := valueCodec.Decode(encodedValue, decodedValue, version); err != nil {", "\t\t\t} else if valueWasNull, err := keyCodec.Decode(encodedValue, decodedValue, version); err != nil {",
+  "element-pairing:writeMap/readMap", "map value decoded with the key codec")
+k("K141", "C11", "datacodec/collection.go", "\t\tcase reflect.Array:\n\t\t\tif !wasNull {\n\t\t\t\tinjectorFactory = func(size int) (injector, error) {\n\t\t\t\t\treturn newSliceInjector(destValue)\n\t\t\t\t}\n\t\t\t}\n", "",
+  "kind-symmetry:collectionCodec Array", "arrays accepted as sources only")
+k("K142", "C11", "datacodec/tuple.go", "func writeTuple(ext extractor, elementCodecs []Codec, version primitive.ProtocolVersion) ([]byte, error) {\n\tbuf := &bytes.Buffer{}", "var tupleScratch bytes.Buffer\n\nfunc writeTuple(ext extractor, elementCodecs []Codec, version primitive.ProtocolVersion) ([]byte, error) {\n\tbuf := &tupleScratch\n\tbuf.Reset()",
+  "fresh-result:datacodec.writeTuple", "result backed by a package-level buffer")
+k("K143", "C11", "datacodec/map.go", "\t\t\t} else if err = inj.setElem(i, decodedKey, decodedValue, keyWasNull, valueWasNull); err != nil {", "\t\t\t} else if err = inj.setElem(i, decodedKey, decodedValue, valueWasNull, keyWasNull); err != nil {",
+  "element-pairing:writeMap/readMap", "null flags of key and value swapped")
+
 # ---- C12
 k("K41", "C12", "datacodec/collection.go", "\tif version.Uses4BytesCollectionLength() {\n\t\tif size > math.MaxInt32 {", "\tif version.Uses4BytesCollectionLength() && size < 0 {\n\t\tif size > math.MaxInt32 {",
   "container-layout:list encode @v3", "v3+: count written as [short]")
